@@ -24,7 +24,7 @@ from harness import servers, scenario, reset
 ID = 'C17'
 LEVEL = 'model_checking'
 TOK_A = ['R', 'W', 'C', 'E2', 'E3', 'E1', 'D', 'I', 'UA', 'I0']
-TOK_EXTRA = ['WMAX']          # singles only
+TOK_EXTRA = ['WMAX', 'RP']          # singles only ('RP': TCP framing only)
 TIDS = [1, 0xFFFF, 0]
 FRONTS_FOR = {}
 for _f, (_k, _frs) in servers.FRONTS.items():
@@ -133,7 +133,7 @@ def shard_equiv(args):
                     if n <= 2 and len(dg) > 1:
                         compare(acc, framing, cfg, seq, 'debris-first', dg, whole_base)
             for tok in TOK_EXTRA:
-                if framing == 'tls':
+                if framing == 'tls' or (tok == 'RP' and framing != 'tcp'):
                     continue
                 k += 1
                 if k % parts == part:
